@@ -10,7 +10,7 @@ LEVEL = "model_checking"
 
 
 def cfg(cap, maxops, gen):
-    s = 'SPECIFICATION Spec\nCONSTANTS\n Cap = %d\n MaxOps = %d\n Suites = {"CBC", "GCM"}\n Names = {"a", "b"}\n Versions = {11, 12}\n' % (cap, maxops)
+    s = 'SPECIFICATION Spec\nCONSTANTS\n ShapeName = "free"\n Cap = %d\n MaxOps = %d\n Suites = {"CBC", "GCM"}\n Names = {"a", "b"}\n Versions = {11, 12}\n' % (cap, maxops)
     if gen:
         s += "CONSTRAINT Emit\n"
     else:
@@ -43,18 +43,27 @@ def run(ctx):
     # all histories connect, X, Y, connect (every pair of changes between two connections), exhaustively by BFS
     directed = []
     with open(os.path.join(d, "res_dir.cfg"), "w") as f:
-        f.write('SPECIFICATION Spec\nCONSTANTS\n Cap = 1\n MaxOps = 4\n Suites = {"CBC", "GCM"}\n Names = {"a"}\n Versions = {11, 12}\nCONSTRAINT Emit\n')
+        f.write('SPECIFICATION Spec\nCONSTANTS\n ShapeName = "free"\n Cap = 1\n MaxOps = 4\n Suites = {"CBC", "GCM"}\n Names = {"a"}\n Versions = {11, 12}\nCONSTRAINT Emit\n')
     r = ctx.tlc("TLCPResume", "res_dir.cfg", workers=1, timeout=1500, count=False)
     for b in markers(r["out"], "BEH"):
         if b[0]["op"] == "connect" and b[-1]["op"] == "connect":
             directed.append((1, b))
     with open(os.path.join(d, "res_dir.cfg"), "w") as f:
-        f.write('SPECIFICATION Spec\nCONSTANTS\n Cap = 1\n MaxOps = 3\n Suites = {"CBC", "GCM"}\n Names = {"a"}\n Versions = {11, 12}\nCONSTRAINT Emit\n')
+        f.write('SPECIFICATION Spec\nCONSTANTS\n ShapeName = "free"\n Cap = 1\n MaxOps = 3\n Suites = {"CBC", "GCM"}\n Names = {"a"}\n Versions = {11, 12}\nCONSTRAINT Emit\n')
     r = ctx.tlc("TLCPResume", "res_dir.cfg", workers=1, timeout=1500, count=False)
     for b in markers(r["out"], "BEH"):
         if b[0]["op"] == "connect" and b[-1]["op"] == "connect":
             directed.append((1, b))
-    ctx.log("directed histories (connect, <=2 changes, connect) enumerated by TLC: %d" % len(directed))
+    # sessions that carry a client certificate: set the policy, connect, any one operation, connect, connect (re-issued tickets)
+    with open(os.path.join(d, "res_dir.cfg"), "w") as f:
+        f.write('SPECIFICATION Spec\nCONSTANTS\n ShapeName = "cert_x_cc"\n Cap = 1\n MaxOps = 5\n Suites = {"CBC", "GCM"}\n Names = {"a"}\n Versions = {11, 12}\nCONSTRAINT Emit\n')
+    r = ctx.tlc("TLCPResume", "res_dir.cfg", workers=1, timeout=1500, count=False)
+    ncert = 0
+    for b in markers(r["out"], "BEH"):
+        if b[0]["op"] == "auth" and b[0]["ccert"] and b[0]["a"] != "none":
+            directed.append((1, b))
+            ncert += 1
+    ctx.log("directed histories enumerated by TLC: %d (connect, <=2 changes, connect) incl. %d (client-certificate policy, connect, one operation, connect, connect)" % (len(directed), ncert))
     # keep histories with at least two connections; prefer those that resume / tamper / rotate
     behs = [x for x in behs if sum(1 for o in x[1] if o["op"] == "connect") >= 2]
     seen, uniq = set(), []
@@ -82,12 +91,20 @@ def run(ctx):
         for j in idx:
             tam.append({"proto": rnd.choice(["gm", "tls"]), "cap": 1, "ops": base + [{"op": "tamper", "name": "a", "region": region, "byte": j + 1000},
                         {"op": "connect", "name": "a", "offered": True, "expect": "full", "sid": 2, "suite": "CBC", "hascert": False}]})
+    cbase = [{"op": "auth", "a": "require", "ccert": True},
+             {"op": "connect", "name": "a", "offered": False, "expect": "full", "sid": 1, "suite": "CBC", "hascert": True}]
+    for region, n in (("state_tail", 8), ("state", 700), ("mac", 32), ("iv", 16)):
+        idx = range(n) if thorough else (list(range(3)) + rnd.sample(range(3, n), 2) if region == "state_tail" else rnd.sample(range(n), 2))
+        for j in idx:
+            for proto in ("gm", "tls"):
+                tam.append({"proto": proto, "cap": 1, "ops": cbase + [{"op": "tamper", "name": "a", "region": region, "byte": j + 1000},
+                            {"op": "connect", "name": "a", "offered": True, "expect": "full", "sid": 2, "suite": "CBC", "hascert": True}]})
     for h in tam:
         for o in h["ops"]:
             if o["op"] == "tamper":
                 o["byte"] -= 1000
-                if o["byte"] == 0:
-                    o["byte"] = 1     # (0 is the driver's "middle of the region" default)
+                if o["byte"] == 0 and o["region"] != "state_tail":
+                    o["byte"] = 1     # (0 is the driver's "middle of the region" default; for state_tail it is the last byte)
     hist += tam
     hf = os.path.join(ctx.work, "hist.ndjson")
     of = os.path.join(ctx.work, "obs.ndjson")
